@@ -373,9 +373,29 @@ package cert
 //@   ensures @C07 ok == (k < 6)
 //@   ensures @C07 ok ==> oid != nil && oidv(oid) == specEkuOid(k)
 
+// ReadPem scans the blocks pem.Decode finds, in order: the last CERTIFICATE block becomes the certificate, the last
+// CERTIFICATE REQUEST block the request (each the value whose DER the block holds), a block whose type contains
+// "PRIVATE KEY" is handed to ParsePKCS8PrivateKey; other blocks are skipped; anything left over after the last block,
+// or a block that does not parse, is an error (C17: any combination of hash line, certificate, key and request).
 //@ func ReadPem returns (res, err)
 //@   props C17 C14
-//@   unverified loop over pem.Decode with ParsePKCS8PrivateKey (C17) not yet under contract
+//@   uses pem.smt2
+//@   noslicefacts
+//@   let D0 = old(bytes(pemBytes))
+//@   let CUR = bytes(pemBytes)
+//@   let ACCC = (if pemFileContent.Certificate != nil then deep(deref(pemFileContent.Certificate)) else #noDeep)
+//@   let ACCR = (if pemFileContent.Request != nil then deep(deref(pemFileContent.Request)) else #noDeep)
+//@   ensures @C17,C14 err == nil ==> blen(pemTail(D0)) == 0
+//@   ensures @C17,C14 err == nil ==> ((res.Certificate != nil) <==> pemAny(D0, 1, false)) && ((res.Request != nil) <==> pemAny(D0, 2, false))
+//@   ensures @C17,C14 err == nil && res.Certificate != nil ==> deep(deref(res.Certificate)) == pemLastD(D0, 1, #noDeep)
+//@   ensures @C17,C14 err == nil && res.Request != nil ==> deep(deref(res.Request)) == pemLastD(D0, 2, #noDeep)
+//@   ensures @C17,C14 err == nil ==> ((res.PrivateKey != nil) <==> pemAny(D0, 3, false))
+//@   loop 1
+//@     invariant @C17,C14 pemTail(CUR) == pemTail(D0)
+//@     invariant @C17,C14 pemAny(CUR, 1, pemFileContent.Certificate != nil) == pemAny(D0, 1, false) && pemAny(CUR, 2, pemFileContent.Request != nil) == pemAny(D0, 2, false)
+//@     invariant @C17,C14 pemLastD(CUR, 1, ACCC) == pemLastD(D0, 1, #noDeep)
+//@     invariant @C17,C14 pemLastD(CUR, 2, ACCR) == pemLastD(D0, 2, #noDeep)
+//@     invariant @C17,C14 pemAny(CUR, 3, pemFileContent.PrivateKey != nil) == pemAny(D0, 3, false)
 
 // ---- EC private keys and PKCS#8 (C17, C14)
 //@ func namedCurveFromOID returns (res, err)
@@ -425,8 +445,13 @@ package cert
 //@   props C17 C14
 //@   uses ec.smt2 fs.smt2
 //@   given oidv(oidRsaEncryption) == oid("1.2.840.113549.1.1.1") && oidv(oidEcPublicKey) == oid("1.2.840.10045.2.1")
-//@   let P8 = aftercall("encoding/asn1.Unmarshal", 1, deref(addr(privKey)))
+//@   ghostret P8 gopki/generator/cert.pkcs8 = aftercall("encoding/asn1.Unmarshal", 1, deref(addr(privKey)))
+//@   ghostret P8KEY Bytes = aftercall("encoding/asn1.Unmarshal", 1, bytes(deref(addr(privKey)).PrivateKey))
+//@   ghostret ECKEY Int = callres("gopki/generator/cert.parseECPrivateKey", 1, 0)
+//@   ghostret ECERR Any = callres("gopki/generator/cert.parseECPrivateKey", 1, 1)
 //@   ensures err != nil ==> key == nil
-//@   ensures @C17 err == nil ==> (oidv(P8.Algo.Algorithm) == oid("1.2.840.113549.1.1.1") || oidv(P8.Algo.Algorithm) == oid("1.2.840.10045.2.1"))
-//@   ensures @C17 err == nil && oidv(P8.Algo.Algorithm) == oid("1.2.840.113549.1.1.1") ==> called("crypto/x509.ParsePKCS1PrivateKey", 1) && typeis(key, "*crypto/rsa.PrivateKey") && pkcs1priv(unboxRef(key)) == aftercall("encoding/asn1.Unmarshal", 1, bytes(deref(addr(privKey)).PrivateKey))
-//@   ensures @C17,C14 err == nil && oidv(P8.Algo.Algorithm) != oid("1.2.840.113549.1.1.1") ==> called("gopki/generator/cert.parseECPrivateKey", 1) && callres("gopki/generator/cert.parseECPrivateKey", 1, 1) == nil && typeis(key, "*crypto/ecdsa.PrivateKey") && unboxRef(key) == callres("gopki/generator/cert.parseECPrivateKey", 1, 0)
+//@   ensures @C17,C14 err == nil ==> key != nil && bound(P8) && bound(P8KEY)
+//@   ensures @C17 err == nil && bound(P8) ==> (oidv(P8.Algo.Algorithm) == oid("1.2.840.113549.1.1.1") || oidv(P8.Algo.Algorithm) == oid("1.2.840.10045.2.1"))
+//@   ensures @C17 err == nil && bound(P8) && bound(P8KEY) && oidv(P8.Algo.Algorithm) == oid("1.2.840.113549.1.1.1") ==> typeis(key, "*crypto/rsa.PrivateKey") && pkcs1priv(unboxRef(key)) == P8KEY
+//@   ensures @C17,C14 err == nil && bound(P8) && oidv(P8.Algo.Algorithm) != oid("1.2.840.113549.1.1.1") ==> bound(ECKEY) && bound(ECERR)
+//@   ensures @C17,C14 err == nil && bound(P8) && bound(ECKEY) && bound(ECERR) && oidv(P8.Algo.Algorithm) != oid("1.2.840.113549.1.1.1") ==> ECERR == nil && typeis(key, "*crypto/ecdsa.PrivateKey") && unboxRef(key) == ECKEY
